@@ -315,6 +315,10 @@ def r5_module_state(repo: Repo, rep):
 
 
 def run(repo: Repo, rep):
+    from .c04 import r6_track  # evaluating a condition marks only its own coordinate copies as differentiable, never the (shared, cached) points of the sampler
+    r6_track(repo, rep)
+    from .c02 import r4_algebra  # a shared sampler's recorded length is its own point count, whatever parameters one evaluation passed
+    r4_algebra(repo, rep)
     r1_r2_effects(repo, rep)
     r1b_setup(repo, rep)
     r3_periodic(repo, rep)
